@@ -224,8 +224,12 @@ def merge_repeated_kwargs(params: List[TagParam]) -> List[TagParam]:
 
             # NOTE: format_html escapes each value unless it is already safe (e.g. `class="{{ cls }} btn"`),
             #       so that a safe value joined with an unsafe one is not escaped for a second time later on.
+            # NOTE: `None` and `False` mean "no value", so they add nothing to the merged value.
             merged_param = params_by_key[param.key]
-            merged_param.value = format_html("{} {}", merged_param.value, param.value)
+            if merged_param.value is None or merged_param.value is False:
+                merged_param.value = param.value
+            elif param.value is not None and param.value is not False:
+                merged_param.value = format_html("{} {}", merged_param.value, param.value)
 
     return resolved_params
 
